@@ -580,7 +580,7 @@ RET_OWNER = {
     "Contains": "C01", "Lpm": "C02", "Iter": "C03", "Len": "C04", "Spm": "C09", "Cover": "C09",
     "Children": "C10", "Retain": "C10", "RemoveChildren": "C10", "PathReplay": "C01",
     "ViewDesc": "C11", "Find": "C12", "ViewSet": "C01", "ViewRemove": "C01", "ViewValueMut": "C13", "ViewIterMut": "C13",
-    "SplitOp": "C06", "CloneCheck": "C19", "Collect": "C19", "Serde": "C19", "Alias": "C14",
+    "SplitOp": "C06", "Misc": "C20", "CloneCheck": "C19", "Collect": "C19", "Serde": "C19", "Alias": "C14",
     "Entry": "C01", "GetMut": "C01", "LpmMut": "C02", "IterMut": "C03", "ValuesMut": "C03", "ChildrenMut": "C10",
 }
 MUT_TRAVERSALS = {"GetMut", "LpmMut", "IterMut", "ValuesMut", "ChildrenMut", "ViewValueMut", "ViewIterMut"}
